@@ -180,3 +180,32 @@ func treeProbes(c *sim.Ctx, w *world.World) {
 	}
 	c.State("pages", len(img)/u > 100, u)
 }
+
+// rowsEqModDefaults compares like rowsEq(relaxed) but does not count the
+// default-affinity difference (C01's known finding, about DEFAULT values, not
+// about the property at hand) as a difference; it is counted instead.
+func rowsEqModDefaults(c *sim.Ctx, t *sq.Table, cols []string, want, got [][]sq.Val) (bool, int) {
+	n := len(want)
+	if len(got) < n {
+		n = len(got)
+	}
+	for i := 0; i < n; i++ {
+		if len(want[i]) != len(got[i]) {
+			return false, i
+		}
+		for j := range want[i] {
+			if valEqRelaxed(want[i][j], got[i][j]) {
+				continue
+			}
+			if j < len(cols) && classify(t, cols[j], want[i][j], got[i][j]) == "default-affinity" {
+				c.Inc("default_affinity_seen", 1)
+				continue
+			}
+			return false, i
+		}
+	}
+	if len(want) != len(got) {
+		return false, n
+	}
+	return true, -1
+}
